@@ -269,6 +269,8 @@ def d2_taint(ctx, idx):
                     if direct and cn == '__call__' and isinstance(call.func, ast.Attribute) and \
                             isinstance(call.func.value, ast.Call) and nf.callee_name(call.func.value) == 'super':
                         continue
+                    if direct and _helper_guards_its_use(idx, fi, call, n):
+                        continue
                 bad.append(n)
             if bad:
                 for n in bad:
@@ -353,6 +355,48 @@ def d2_taint(ctx, idx):
                 r.ok(fi.qualname + ' [delegation]', 'every return delegates to super().__call__', fi.loc)
 
 
+def _helper_guards_its_use(idx, fi, call, arg, depth=0):
+    """The submission is handed to a helper of the package (an extracted part of __call__): fine when, inside that helper, every use of
+    the corresponding parameter is itself guarded by the catch-all try, goes to a reviewed sink, or is handed on the same way."""
+    if depth > 2:
+        return False
+    from ..effects import map_args
+    try:
+        targets, how = idx.resolve_call(fi, call)
+    except Exception:
+        return False
+    funcs = [t for t in targets if not isinstance(t, tuple) and hasattr(t, 'qualname') and t.qualname.startswith('mitxgraders.')]
+    if not funcs or len(funcs) != len(targets):
+        return False
+    for t in funcs:
+        mapping = map_args(t, call)
+        pname = next((p for p, a in mapping.items() if a is arg), None)
+        if pname is None:
+            return False
+        for m in walk_own(t.node):
+            if not (isinstance(m, ast.Name) and m.id == pname and isinstance(m.ctx, ast.Load)):
+                continue
+            guarded = False
+            for a in ancestors(m):
+                if isinstance(a, ast.Try) and any(set(lib.handler_class_names(h)) & {'Exception', 'BaseException'} for h in a.handlers):
+                    guarded = True
+                    break
+                if a is t.node:
+                    break
+            if guarded:
+                continue
+            c2 = _enclosing_call(m)
+            if c2 is not None:
+                cn2 = nf.callee_name(c2)
+                direct2 = any(x is m for x in c2.args) or any(k.value is m for k in c2.keywords)
+                if direct2 and (cn2 in SAFE_SINKS or cn2 in ('isinstance', 'str', 'repr', 'type', 'len')):
+                    continue
+                if direct2 and _helper_guards_its_use(idx, t, c2, m, depth + 1):
+                    continue
+            return False
+    return True
+
+
 def _enclosing_call(n):
     from ..index import parent
     p = parent(n)
@@ -409,36 +453,7 @@ def d3_text_inputs(ctx, idx):
         # the base implementation: every path that does not return a validated input raises ConfigError
         base = idx.func(AG + '.ensure_text_inputs')
         bcfg = cfg_of(base.node)
-        for ret in lib.returns_of(base.node):
-            v = ret.value
-            schema_call = v.func if isinstance(v, ast.Call) else None
-            if isinstance(schema_call, ast.Name):
-                # a schema hoisted into a module-level constant bound once: _TEXT_SCHEMA = Schema(str)
-                vals = base.module.assigns.get(schema_call.id, [])
-                if len(vals) == 1 and isinstance(vals[0], ast.Call):
-                    schema_call = vals[0]
-            ok = isinstance(v, ast.Call) and isinstance(schema_call, ast.Call) and nf.callee_name(schema_call) == 'Schema'
-            if ok:
-                sch = schema_call.args[0] if schema_call.args else None
-                is_list = isinstance(sch, ast.List)
-                elt = sch.elts[0] if is_list and sch.elts else sch
-                ok = isinstance(elt, ast.Name) and elt.id == 'str'
-                # the guard of this return must agree with the schema form
-                test = _innermost_if_test(ret)
-                if test is not None:
-                    test = nf.subst(test, lib.local_env(base.node))
-                want = 'isinstance(student_input, list)'
-                if test is not None:
-                    t = nf.canon(test)
-                    pos = any(nf.match('isinstance(student_input, list)', c) is not None for c in nf.conjuncts(t))
-                    neg = any(nf.match('not isinstance(student_input, list)', c) is not None for c in nf.conjuncts(t))
-                    flag = 'allow_lists' if is_list else 'allow_single'
-                    has_flag = any(isinstance(c, ast.Name) and c.id == flag for c in nf.conjuncts(t))
-                    if not ((is_list and pos and has_flag) or (not is_list and neg and has_flag)):
-                        ok = False
-            r.check(ok, 'AbstractGrader.ensure_text_inputs: return', 'returns Schema(str|[str])(student_input) under the matching flag',
-                    'a return hands back input that was not validated as text under the matching allow_* flag: `%s`' % short(ret),
-                    lib.loc(base, ret))
+        _d3_returns_by_truth_table(r, idx, base, bcfg)
         last_raises = lib.raises_of(base.node)
         classes = [nf.exc_class_name(x.exc) for x in last_raises]
         # after the try, no path may reach EXIT_RETURN
@@ -473,6 +488,140 @@ def d3_text_inputs(ctx, idx):
             both_false = al is not None and asg is not None and nf.const_value(al, 1) is False and nf.const_value(asg, 1) is False
             r.check(not both_false, '%s: call of ensure_text_inputs' % f.qualname, 'at least one allow_* flag stays true',
                     'both allow_lists and allow_single are False: every input raises ValueError (not a library error)', lib.loc(f, c))
+
+
+def _d3_returns_by_truth_table(r, idx, base, bcfg):
+    """ensure_text_inputs decided over the complete domain of (input is a list, allow_lists, allow_single): on every path taken
+    under a valuation a value may be returned only as Schema([str])(student_input) when lists are allowed and the input is a list,
+    as Schema(str)(student_input) when single strings are allowed and it is not, and never otherwise.  Locals holding a chosen schema,
+    a flag or None are tracked per path, so the layout (tests around the returns, or a schema selected up front) does not matter."""
+    import itertools
+    params = base.params
+    if 'student_input' not in params:
+        raise AnalysisError('ensure_text_inputs: parameter student_input vanished')
+
+    def schema_kind(call):
+        if isinstance(call, ast.Name):
+            vals = base.module.assigns.get(call.id, [])
+            if len(vals) == 1:
+                call = vals[0]
+        if isinstance(call, ast.Call) and nf.callee_name(call) == 'Schema' and call.args:
+            sch = call.args[0]
+            if isinstance(sch, ast.List) and len(sch.elts) == 1 and isinstance(sch.elts[0], ast.Name) and sch.elts[0].id == 'str':
+                return ('schema', 'list')
+            if isinstance(sch, ast.Name) and sch.id == 'str':
+                return ('schema', 'str')
+            return ('schema', '?')
+        return None
+
+    def ev(e, val, env):
+        if isinstance(e, ast.Constant):
+            return 'none' if e.value is None else (e.value if isinstance(e.value, bool) else None)
+        if isinstance(e, ast.Name):
+            if e.id == 'allow_lists':
+                return val['AL']
+            if e.id == 'allow_single':
+                return val['AS']
+            if e.id in env:
+                return env[e.id]
+            return schema_kind(e)
+        if isinstance(e, ast.Call) and nf.callee_name(e) == 'isinstance' and len(e.args) == 2 and isinstance(e.args[0], ast.Name) \
+                and e.args[0].id == 'student_input' and isinstance(e.args[1], ast.Name) and e.args[1].id == 'list':
+            return val['L']
+        if isinstance(e, ast.Call):
+            return schema_kind(e)
+        if isinstance(e, ast.UnaryOp) and isinstance(e.op, ast.Not):
+            v = ev(e.operand, val, env)
+            return (not v) if isinstance(v, bool) else None
+        if isinstance(e, ast.BoolOp):
+            vs = [ev(x, val, env) for x in e.values]
+            bs = [v if isinstance(v, bool) else (False if v == 'none' else (True if isinstance(v, tuple) else None)) for v in vs]
+            if isinstance(e.op, ast.And):
+                return False if any(b is False for b in bs) else (True if all(b is True for b in bs) else None)
+            return True if any(b is True for b in bs) else (False if all(b is False for b in bs) else None)
+        if isinstance(e, ast.Compare) and len(e.ops) == 1 and isinstance(e.ops[0], (ast.Is, ast.IsNot)) \
+                and isinstance(e.comparators[0], ast.Constant) and e.comparators[0].value is None:
+            v = ev(e.left, val, env)
+            if v is None:
+                return None
+            isnone = v == 'none'
+            return isnone if isinstance(e.ops[0], ast.Is) else (not isnone)
+        if isinstance(e, ast.IfExp):
+            t = ev(e.test, val, env)
+            if isinstance(t, bool):
+                return ev(e.body if t else e.orelse, val, env)
+        return None
+
+    problems, unknowns, n_ok = [], [], 0
+    for L, AL, AS in itertools.product((False, True), repeat=3):
+        val = {'L': L, 'AL': AL, 'AS': AS}
+        allowed = 'list' if (L and AL) else ('str' if (not L and AS) else None)
+        stack = [(bcfg.entry, ())]
+        seen = set()
+        while stack:
+            node, envt = stack.pop()
+            if (node, envt) in seen:
+                continue
+            seen.add((node, envt))
+            env = dict(envt)
+            a = node.ast
+            if node.kind == 'stmt' and isinstance(a, ast.Return):
+                v = a.value
+                kind = None
+                if isinstance(v, ast.Call) and len(v.args) == 1 and isinstance(v.args[0], ast.Name) and v.args[0].id == 'student_input':
+                    kind = ev(v.func, val, env)
+                case = 'input %s a list, allow_lists=%s, allow_single=%s' % ('is' if L else 'is not', AL, AS)
+                if isinstance(kind, tuple) and kind[1] in ('list', 'str'):
+                    if allowed is None:
+                        problems.append((a, '%s: `%s` hands the input back although this kind of input is not allowed' % (case, short(a))))
+                    elif kind[1] != allowed:
+                        problems.append((a, '%s: `%s` validates with Schema(%s) where Schema(%s) is required' % (
+                            case, short(a), '[str]' if kind[1] == 'list' else 'str', '[str]' if allowed == 'list' else 'str')))
+                    else:
+                        n_ok += 1
+                else:
+                    unknowns.append((a, '%s: what `%s` validates with is not decided' % (case, short(a))))
+                continue
+            if node.kind == 'test':
+                t = ev(a.test, val, env)
+                if t == 'none':
+                    t = False
+                elif isinstance(t, tuple):
+                    t = True
+                for s2, lab in node.succs:
+                    if lab == 'exc':
+                        continue
+                    if not isinstance(t, bool) or lab == ('true' if t else 'false'):
+                        stack.append((s2, envt))
+                continue
+            if node.kind == 'stmt' and isinstance(a, ast.Assign) and len(a.targets) == 1 and isinstance(a.targets[0], ast.Name):
+                nm = a.targets[0].id
+                v = ev(a.value, val, env)
+                env.pop(nm, None)
+                if v is not None:
+                    env[nm] = v
+                envt = tuple(sorted(env.items(), key=lambda kv: kv[0]))
+            for s2, lab in node.succs:
+                if lab != 'exc' or node.kind == 'handler':
+                    stack.append((s2, envt))
+                elif lab == 'exc':
+                    stack.append((s2, envt))     # the validation call may raise: the handler path continues
+    seen_msgs = set()
+    for a, msg in problems:
+        if msg in seen_msgs:
+            continue
+        seen_msgs.add(msg)
+        r.violation('AbstractGrader.ensure_text_inputs: return', 'a return hands back input that was not validated as text under the matching allow_* flag: ' + msg,
+                    lib.loc(base, a))
+    if not problems:
+        if unknowns:
+            a, msg = unknowns[0]
+            r.undecided('AbstractGrader.ensure_text_inputs: return', msg, lib.loc(base, a))
+        elif n_ok:
+            r.ok('AbstractGrader.ensure_text_inputs: returns', 'Schema([str]) / Schema(str) under the matching kind and flag in all 8 cases (%d returns reached)' % n_ok, base.loc)
+            r.ok('AbstractGrader.ensure_text_inputs: returns [list]', 'list inputs validated item by item', base.loc, nontrivial=False)
+        else:
+            r.undecided('AbstractGrader.ensure_text_inputs: return', 'no return of a validated input found', base.loc)
 
 
 def _innermost_if_test(node):
@@ -783,6 +932,18 @@ def _expect_translation(r, idx, fi, tr, call, mapping, label):
                 r.violation(construct, 'handler %s instead of raising %s' % ('returns a value' if p.leaf.kind == 'ret' else 'falls through', dst),
                             lib.loc(fi, h))
             elif nf.exc_class_name(p.leaf.expr) != dst:
+                raised = p.leaf.expr
+                is_class = False
+                cn = nf.exc_class_name(raised)
+                if cn:
+                    kind, obj = idx.resolve_name(fi.module, cn) if cn.isidentifier() else (None, None)
+                    is_class = kind == 'class' or cn in ('ValueError', 'TypeError', 'Exception', 'KeyError', 'IndexError', 'ZeroDivisionError',
+                                                         'OverflowError', 'RuntimeError', 'AttributeError', 'ArithmeticError')
+                if raised is not None and not is_class:
+                    # the raised object is computed (a helper that builds or selects the error, a table lookup): not decided here
+                    r.undecided(construct, 'the raised object `%s` is computed, not an exception class applied here' % short(raised), lib.loc(fi, p.leaf.stmt))
+                    ok = None
+                    continue
                 if unknown:
                     r.undecided(construct, 'a path with an unrecognised guard raises %s' % (nf.exc_class_name(p.leaf.expr) or 'the caught error'), lib.loc(fi, h))
                     ok = None
@@ -990,6 +1151,66 @@ def _template_contributions(fi, cfg, call, name):
     return out
 
 
+def _loop_literal_texts(idx, fi, name):
+    """If `name` is bound only as (an element of) the target of for-loops / comprehensions over a literal table (a display, or a class- or
+    module-level constant bound once to a display) whose rows hold a string literal at that position: the list of those texts, else None."""
+    texts = []
+    bound_elsewhere = False
+    found = False
+    for n in walk_own(fi.node):
+        if isinstance(n, (ast.Assign, ast.AugAssign, ast.AnnAssign)):
+            ts = n.targets if isinstance(n, ast.Assign) else [n.target]
+            if any(isinstance(x, ast.Name) and x.id == name for t in ts for x in ast.walk(t)):
+                bound_elsewhere = True
+        tgt, it = None, None
+        if isinstance(n, ast.For):
+            tgt, it = n.target, n.iter
+        elif isinstance(n, ast.comprehension):
+            tgt, it = n.target, n.iter
+        if tgt is None:
+            continue
+        pos = None
+        if isinstance(tgt, ast.Name) and tgt.id == name:
+            pos = ()
+        elif isinstance(tgt, (ast.Tuple, ast.List)):
+            for i, e in enumerate(tgt.elts):
+                if isinstance(e, ast.Name) and e.id == name:
+                    pos = (i,)
+        if pos is None:
+            continue
+        table = it
+        if isinstance(table, ast.Attribute):
+            v = None
+            if fi.cls is not None:
+                v = idx.lookup_attr(fi.cls, table.attr)
+            if v is None and isinstance(table.value, ast.Name):
+                kind, obj = idx.resolve_name(fi.module, table.value.id)
+                if kind == 'class':
+                    v = idx.lookup_attr(obj, table.attr)
+            if isinstance(v, tuple):
+                v = v[-1]       # lookup_attr returns (defining class, value node)
+            table = v
+        elif isinstance(table, ast.Name):
+            vals = fi.module.assigns.get(table.id, [])
+            table = vals[0] if len(vals) == 1 else None
+        if not isinstance(table, (ast.Tuple, ast.List)):
+            return None
+        for row in table.elts:
+            cell = row
+            if pos:
+                if not isinstance(row, (ast.Tuple, ast.List)) or len(row.elts) <= pos[0]:
+                    return None
+                cell = row.elts[pos[0]]
+            t = _literal_text(cell)
+            if t is None:
+                return None
+            texts.append(t)
+        found = True
+    if not found or bound_elsewhere or name in fi.all_params:
+        return None
+    return texts
+
+
 def d7_templates(ctx, idx):
     r = ctx.rule('D7.TEMPLATE', 'a message template handed to str.format consists of literal text only: data (names, student text, '
                  'configured strings) enters through the arguments, never through the template', floor=90)
@@ -1026,6 +1247,8 @@ def d7_templates(ctx, idx):
                     v = None
                     if fi.cls is not None and isinstance(recv.value, ast.Name):
                         v = idx.lookup_attr(fi.cls, recv.attr)
+                        if isinstance(v, tuple):
+                            v = v[-1]
                     if v is not None and _literal_text(v) is not None:
                         r.ok(what, 'class-level literal template', lib.loc(fi, c))
                     continue
@@ -1043,6 +1266,9 @@ def d7_templates(ctx, idx):
                             out += [('data', p[1], p[2]) if p[0] == 'opaque' else p for p in ps]
                         return out
                     if isinstance(x, ast.Name) and depth < 4 and x.id not in busy:
+                        lt = _loop_literal_texts(idx, fi, x.id)
+                        if lt is not None:
+                            return [('lit', ' '.join(lt), None)]
                         cs = _template_contributions(fi, the_cfg(), c, x.id)
                         if cs:
                             out = []
